@@ -1,3 +1,277 @@
 import B6.Driver.Common
-/-! Driver for C17 — stub (the check for this property is not built yet). -/
-def main : IO Unit := B6.Driver.run { σ := Unit, init := (), step := fun s _ _ => (s, .bad) }
+import B6.Model.Merged
+/-!
+Driver for C17 — worlds merged from several compact index files.
+
+The harness describes every built file as the real decoders see it (namespace table, feature blocks with
+their entries, what each entry answers when its file is loaded alone, the stream of its search index for
+each query), then merges the files into one `compact.World` and asks it questions.  The driver rebuilds the
+merged world with `B6.Model.Merged` from the per-file facts, recomputes every answer with the model, and
+evaluates the property on the implementation's answer: the merged world answers like the one-file build of
+the union of the features (second half of an answer, `-` when the case duplicates ids on purpose).
+
+ids are `<type>/<namespace rank>/<value>`.
+
+  `nss [..]`                                 namespaces in byte order (`~` is the empty namespace); checked
+  `file k plain|overlay table=[ranks]`       namespace table of file k (codes → ranks); checked duplicate-free
+  `block k t nsenc=[a b c d]`  => `[v:kind ..]`   kind ∈ c f r x
+  `feat k id`                  => `content|nil`    file k alone: FindFeatureByID
+  `ploc k id`                  => `e7|err`         file k alone: FindLocationByID
+  `load [k ..]`                => `ok`
+  `idx k q`                    => `[ids]`          per-index stream in the merged world; checked ascending
+  `find id` `has id` `loc id` `pts id` `each` `search q`   => `merged ## union`
+  `hasid id`                   => `true|false`     FeaturesByID.HasFeatureWithID
+  `reset`
+-/
+open B6.Driver B6.Model.Merged
+namespace B6.Driver.C17
+
+abbrev Blk := Block String String
+abbrev Fl := File String String String
+
+structure FileSt where
+  table : List Nat
+  blocks : Array Blk := #[]
+  streams : List (String × List ID) := []
+
+structure St where
+  nss : Nat := 0
+  files : Array FileSt := #[]
+  order : List Nat := []
+  world : List Blk := []
+
+def renderID (i : ID) : String := s!"{i.typ}/{i.ns}/{i.val}"
+
+def parseID (s : String) : Option ID :=
+  match s.splitOn "/" with
+  | [t, n, v] => do
+    let t ← t.toNat?
+    let n ← n.toNat?
+    let v ← v.toNat?
+    pure ⟨t, n, v⟩
+  | _ => none
+
+def parseIDs (s : String) : Option (List ID) := do
+  let ws ← parseBracket s
+  ws.mapM parseID
+
+def renderIDs (l : List ID) : String := renderList (l.map renderID)
+
+def parseNats (s : String) : Option (List Nat) := do
+  let ws ← parseBracket s
+  ws.mapM (·.toNat?)
+
+def parseKind : String → Option Kind
+  | "c" => some .common
+  | "f" => some .full
+  | "r" => some .refOnly
+  | "x" => some .plain
+  | _ => none
+
+def parseEntry (s : String) : Option (Entry String String) :=
+  match s.splitOn ":" with
+  | [v, k] => do
+    let v ← v.toNat?
+    let k ← parseKind k
+    pure ⟨v, k, "", none⟩
+  | _ => none
+
+def strictlyAscending : List String → Bool
+  | a :: b :: rest => decide (a < b) && strictlyAscending (b :: rest)
+  | _ => true
+
+def sortedIDs : List ID → Bool
+  | a :: b :: rest => !decide (b < a) && sortedIDs (b :: rest)
+  | _ => true
+
+def strictIDs : List ID → Bool
+  | a :: b :: rest => decide (a < b) && strictIDs (b :: rest)
+  | _ => true
+
+def insertID (x : ID) : List ID → List ID
+  | [] => [x]
+  | y :: ys => if x < y then x :: y :: ys else y :: insertID x ys
+
+def sortIDs (l : List ID) : List ID := l.foldr insertID []
+
+/-- split `merged ## union` -/
+def splitBoth (impl : String) : String × String :=
+  match impl.splitOn " ## " with
+  | [a, b] => (a, b)
+  | _ => (impl, "-")
+
+/-- impl vs union build (the property) first, then impl vs model -/
+def judge (m u model clause : String) : Verdict :=
+  if u != "-" && m != u then .propfail clause
+  else if m != model then .diff model
+  else .ok
+
+/-- update the entry `id` of file `k` (first block of the file that matches the id and has the value) -/
+def updateEntry (f : FileSt) (id : ID) (upd : Entry String String → Entry String String) :
+    Option (FileSt × Entry String String) := do
+  let i ← f.blocks.findIdx? (fun b => b.matchesID id && (b.findFirst id.val).isSome)
+  let b ← f.blocks[i]?
+  let e ← b.findFirst id.val
+  let b' : Blk := { b with entries := b.entries.map (fun x => if x.val == id.val then upd x else x) }
+  pure ({ f with blocks := f.blocks.set! i b' }, e)
+
+/-- the references of a path from its content word `id|tags|path:a;b;c` (`@lat,lng` is a literal location) -/
+def pathRefs (content : String) : Option (List String) :=
+  match content.splitOn "|path:" with
+  | [_, r] => some (if r == "" then [] else r.splitOn ";")
+  | _ => none
+
+def modelPts (w : List Blk) (content : String) : String :=
+  match pathRefs content with
+  | none => "not-a-path"
+  | some rs =>
+    let step (r : String) : Option String :=
+      if r.startsWith "@" then some (sdrop r 1) else (parseID r).bind (loc w)
+    match rs.mapM step with
+    | some ls => renderList ls
+    | none => "panic"
+
+def toFile (f : FileSt) : Fl :=
+  { table := f.table, blocks := f.blocks.toList,
+    index := fun q => match f.streams.lookup q with | some l => l | none => [] }
+
+def step (s : St) (op impl : String) : St × Verdict :=
+  match words op with
+  | ["reset"] => ({}, .ok)
+  | "nss" :: _ =>
+    match parseBracket (sdrop op 4) with
+    | some (w :: ws) => if w == "~" && strictlyAscending ws && !ws.contains "~" then ({ s with nss := ws.length + 1 }, .ok) else (s, .bad)
+    | _ => (s, .bad)
+  | "file" :: k :: _ :: _ =>
+    match op.splitOn " table=", k.toNat? with
+    | [_, t], some k =>
+      match parseNats t with
+      | some table =>
+        if k == s.files.size && table.all (· < s.nss) && table.eraseDups.length == table.length then
+          ({ s with files := s.files.push { table := table } }, .ok)
+        else (s, .bad)
+      | none => (s, .bad)
+    | _, _ => (s, .bad)
+  | "block" :: k :: t :: _ =>
+    match op.splitOn " nsenc=", k.toNat?, t.toNat?, (parseBracket impl).bind (·.mapM parseEntry) with
+    | [_, ne], some k, some t, some es =>
+      match parseNats ne, s.files[k]? with
+      | some nsenc, some f =>
+        let b : Blk := ⟨t, nsenc, f.table, es⟩
+        if nsenc.length == 4 && t < numTypes && b.ns?.isSome then
+          ({ s with files := s.files.set! k { f with blocks := f.blocks.push b } }, .ok)
+        else (s, .bad)
+      | _, _ => (s, .bad)
+    | _, _, _, _ => (s, .bad)
+  | ["feat", k, id] =>
+    match k.toNat?, parseID id with
+    | some k, some id =>
+      match s.files[k]? with
+      | some f =>
+        -- the file alone: the model's lookup decides nil / non-nil; a found feature carries its id
+        let expectFound := (find f.blocks.toList id).isSome
+        match updateEntry f id (fun e => { e with content := impl }) with
+        | some (f', _) =>
+          let s' := { s with files := s.files.set! k f' }
+          if expectFound then
+            if impl == "nil" then (s', .diff "non-nil")
+            else if !impl.startsWith (renderID id ++ "|") then (s', .diff (renderID id ++ "|…"))
+            else (s', .ok)
+          else if impl == "nil" then (s', .ok) else (s', .diff "nil")
+        | none => (s, .bad)
+      | none => (s, .bad)
+    | _, _ => (s, .bad)
+  | ["ploc", k, id] =>
+    match k.toNat?, parseID id with
+    | some k, some id =>
+      match s.files[k]? with
+      | some f =>
+        match updateEntry f id (fun e => { e with loc := if impl == "err" then none else some impl }) with
+        | some (f', e) =>
+          let s' := { s with files := s.files.set! k f' }
+          if !e.real && impl != "err" then (s', .diff "err") else (s', .ok)
+        | none => (s, .bad)
+      | none => (s, .bad)
+    | _, _ => (s, .bad)
+  | "load" :: _ =>
+    match parseNats (sdrop op 5) with
+    | some order =>
+      if order.all (· < s.files.size) then
+        let fs := order.filterMap (fun k => s.files[k]?)
+        let s' := { s with order := order, world := mergeBlocks (fs.map toFile) }
+        (s', if impl == "ok" then .ok else .diff "ok")
+      else (s, .bad)
+    | none => (s, .bad)
+  | ["idx", k, q] =>
+    match k.toNat?, parseIDs impl with
+    | some k, some ids =>
+      match s.files[k]? with
+      | some f =>
+        let s' := { s with files := s.files.set! k { f with streams := (q, ids) :: f.streams } }
+        -- the hypothesis of `merged_search`: every per-index stream is ascending
+        if sortedIDs ids then (s', .ok) else (s', .propfail "index-stream-ascending")
+      | none => (s, .bad)
+    | _, _ => if impl == "panic" then (s, .diff "[…]") else (s, .bad)
+  | ["find", id] =>
+    match parseID id with
+    | some id =>
+      let (m, u) := splitBoth impl
+      (s, judge m u ((find s.world id).getD "nil") "lookup-union")
+    | none => (s, .bad)
+  | ["has", id] =>
+    match parseID id with
+    | some id =>
+      let (m, u) := splitBoth impl
+      (s, judge m u (toString (has s.world id)) "exists-union")
+    | none => (s, .bad)
+  | ["hasid", id] =>
+    match parseID id with
+    | some id =>
+      -- `has_eq_find`: the repaired function agrees with the lookup; anything else breaks the property
+      if impl == toString (find s.world id).isSome then
+        (s, if impl == toString (hasByID s.world id) then .ok else .diff (toString (hasByID s.world id)))
+      else (s, .propfail "exists-agrees-with-lookup")
+    | none => (s, .bad)
+  | ["loc", id] =>
+    match parseID id with
+    | some id =>
+      let (m, u) := splitBoth impl
+      (s, judge m u ((loc s.world id).getD "err") "location-union")
+    | none => (s, .bad)
+  | ["pts", id] =>
+    match parseID id with
+    | some id =>
+      let (m, u) := splitBoth impl
+      let model := match find s.world id with
+        | none => "nil"
+        | some c => modelPts s.world c
+      (s, judge m u model "path-points-union")
+    | none => (s, .bad)
+  | ["each"] =>
+    let (m, u) := splitBoth impl
+    let model := match each s.world with
+      | some ids => renderIDs ids
+      | none => "panic"
+    -- the union build lists its features in its own block order: compare as sorted lists
+    match parseIDs m with
+    | some ids =>
+      if u != "-" && renderIDs (sortIDs ids) != u then (s, .propfail "each-union")
+      else (s, if m == model then .ok else .diff model)
+    | none => (s, if u != "-" then .propfail "each-union" else .diff model)
+  | ["search", q] =>
+    let (m, u) := splitBoth impl
+    let fs := s.order.filterMap (fun k => s.files[k]?)
+    if fs.any (fun f => (f.streams.lookup q).isNone) then (s, .bad) else
+    let model := renderIDs (search (fs.map toFile) q)
+    match parseIDs m with
+    | some ids =>
+      if !strictIDs ids then (s, .propfail "search-id-order-no-duplicates")
+      else (s, judge m u model "search-union")
+    | none => (s, if u != "-" then .propfail "search-union" else .diff model)
+  | _ => (s, .bad)
+
+def family : Family := { σ := St, init := {}, step := step }
+
+end B6.Driver.C17
+
+def main : IO Unit := B6.Driver.run B6.Driver.C17.family
